@@ -145,7 +145,7 @@ func (g *c07Gen) walk(src *mgen.Type, vecN int, vecSc bool, constOnly bool, maxL
 		case form >= 7 && form <= 11:
 			vn, vs := n, sc
 			if vn == 0 {
-				vn = []int{2, 4}[rng.Intn(2)]
+				vn = []int{2, 4, 1}[rng.Intn(3)]
 				if !constOnly && rng.Intn(4) == 0 {
 					vs = true
 				}
@@ -250,7 +250,7 @@ func c07Expected(elem *mgen.Type, as, n int, sc bool) string {
 	return p.String()
 }
 
-const c07Params = "i64 %i, <2 x i64> %vi2i64, <4 x i64> %vi4i64, <2 x i32> %vi2i32, <4 x i32> %vi4i32, <2 x i8> %vi2i8, <4 x i8> %vi4i8, <vscale x 2 x i64> %si2i64, <vscale x 4 x i64> %si4i64, <vscale x 2 x i32> %si2i32, <vscale x 4 x i32> %si4i32, <vscale x 2 x i8> %si2i8, <vscale x 4 x i8> %si4i8, <2 x i1> %vi2i1, <4 x i1> %vi4i1, <vscale x 2 x i1> %si2i1, <vscale x 4 x i1> %si4i1"
+const c07Params = "i64 %i, <2 x i64> %vi2i64, <4 x i64> %vi4i64, <2 x i32> %vi2i32, <4 x i32> %vi4i32, <2 x i8> %vi2i8, <4 x i8> %vi4i8, <vscale x 2 x i64> %si2i64, <vscale x 4 x i64> %si4i64, <vscale x 2 x i32> %si2i32, <vscale x 4 x i32> %si4i32, <vscale x 2 x i8> %si2i8, <vscale x 4 x i8> %si4i8, <2 x i1> %vi2i1, <4 x i1> %vi4i1, <vscale x 2 x i1> %si2i1, <vscale x 4 x i1> %si4i1, <1 x i64> %vi1i64, <1 x i32> %vi1i32, <1 x i8> %vi1i8, <1 x i1> %vi1i1, <vscale x 1 x i64> %si1i64, <vscale x 1 x i32> %si1i32, <vscale x 1 x i8> %si1i8, <vscale x 1 x i1> %si1i1"
 
 func genC07(ctx *fw.Ctx) []fw.Case {
 	var cases []fw.Case
@@ -280,7 +280,7 @@ func c07Batch(r *fw.Rec, idx int) {
 	srcs := g.srcTypes()
 	var sb strings.Builder
 	fmt.Fprintf(&sb, "%%S = type %s\n@anchor = global i32 0\n", named.Body)
-	for _, vn := range []int{2, 4} {
+	for _, vn := range []int{1, 2, 4} {
 		for _, it := range []string{"i64", "i32", "i8", "i1"} {
 			fmt.Fprintf(&sb, "%s = type <%d x %s>\n%s = type <vscale x %d x %s>\n", c07AliasName(vn, it, false), vn, it, c07AliasName(vn, it, true), vn, it)
 		}
@@ -297,10 +297,10 @@ func c07Batch(r *fw.Rec, idx int) {
 			baseT := mgen.Ptr(src, as)
 			switch rng.Intn(5) {
 			case 0:
-				vecN = []int{2, 4}[rng.Intn(2)]
+				vecN = []int{2, 4, 1}[rng.Intn(3)]
 				baseT = mgen.Vec(vecN, false, baseT)
 			case 1:
-				vecN, vecSc = []int{2, 4}[rng.Intn(2)], true
+				vecN, vecSc = []int{2, 4, 1}[rng.Intn(3)], true
 				baseT = mgen.Vec(vecN, true, baseT)
 			}
 			ix, elem, n, sc, forms := g.walk(src, vecN, vecSc, false, 5)
